@@ -677,3 +677,38 @@ def c12n(ctx):
         else:
             ctx.bad('%s:%s' % (o.rule, o.construct), o.msg, o.where)
     ctx.stats['functions'] |= sub.stats['functions']
+
+
+@rule('C12.o', floor=2)
+def c12o(ctx):
+    """only the tasks that were asked for run: `mapproxy-seed --seed NAME` hands the clean-up side an *empty* selection (cleanup is
+    off unless --cleanup is given), and an empty selection selects nothing.  "All tasks of the file" is the meaning of `None` alone:
+    the list of all names is taken under `names is None`, never through the truth value of the selection (`names or <all>` runs every
+    clean-up of the file for a run that asked for none)"""
+    for m in ('cleanups', 'seeds'):
+        fn = ctx.fn('mapproxy/seed/config.py:SeedingConfiguration.' + m)
+        g = fn.cfg
+        p = fn.params[1]
+        bad = []
+        # the selection is never used for its truth value
+        for x in fn.walk():
+            if isinstance(x, ast.BoolOp) and any(isinstance(v, ast.Name) and v.id == p for v in x.values[:-1]):
+                bad.append(unparse(x)[:60])
+            if isinstance(x, (ast.If, ast.IfExp, ast.While)) and contains(x.test, lambda y: isinstance(y, ast.Name) and y.id == p) and \
+                    not contains(x.test, lambda y: isinstance(y, ast.Compare) and isinstance(y.ops[0], (ast.Is, ast.IsNot)) and
+                                 isinstance(y.left, ast.Name) and y.left.id == p):
+                bad.append(unparse(x.test)[:60])
+        # re-binding the selection to all names happens under `names is None`
+        rebinds = g.find_stmts(lambda s: isinstance(s, ast.Assign) and unparse(s.targets[0]) == p)
+        ok = not bad and all(g.guarded(n, lambda at: at.op == '==' and {unparse(at.left), unparse(at.right)} == {p, 'None'}, True) for n in rebinds)
+        ctx.check(ok, 'SeedingConfiguration.%s:empty-selection-selects-nothing' % m, 'all names are taken only for `%s is None`' % p, fn,
+                  fail='SeedingConfiguration.%s takes an empty selection for "all tasks" (%s): a run that selected no clean-up runs every '
+                       'clean-up of the file' % (m, '; '.join(bad) or 'selection re-bound without the None test'))
+
+
+@rule('C12.p', floor=2)
+def c12p(ctx):
+    """shared rule C02.j, re-evaluated for this property: a clean-up of one grid of a cache does not reach the tiles of another grid
+    -- every grid of a directory based cache has a directory of its own (also when the directory of the cache is configured)"""
+    from ..engine import share
+    share(ctx, 'C02', {'C02.j'})
